@@ -28,7 +28,7 @@ namespace Compmech.Lifecycle
 /-- exception classes distinguished by the correspondence -/
 inductive Err where
   | ValueError | KeyError | TypeError | RuntimeError | AttributeError | NotImplementedError
-  | NameError
+  | NameError | AssertionError
 deriving DecidableEq, Repr, Inhabited
 
 namespace Panel
@@ -235,7 +235,6 @@ inductive Feat where
   | fstrain       -- field module has `fstrain` (all but plate_w)
   | aero          -- `calc_kA` refuses conical panels
   | fcA           -- matrices module has `fcA` (all but kpanel)
-  | dofs3         -- `dofs == 3` (all but plate_w)
 deriving DecidableEq, Repr
 
 def Feat.has : Feat → MName → Bool
@@ -244,7 +243,6 @@ def Feat.has : Feat → MName → Bool
   | .fstrain, .plateW => false
   | .aero, .kpanel => false
   | .fcA, .kpanel => false
-  | .dofs3, .plateW => false
   | _, _ => true
 
 inductive Instr where
@@ -561,9 +559,9 @@ def progK0 (sizeArg : Bool) : List Instr :=
   [lookup, .setAlpha, .setR, .buildLam, .setF, .kernY .fk0 .fk0y1y2,
    .when .cte (.kernY .fkG0 .fkG0y1y2), .out .k0]
 
-def progKL (fGiven : Bool) : List Instr :=
-  rebuild ++
-  [.setSize, lookup, .setAlpha, .setR, .buildLam, .setF, .failUnless .notY12both .NotImplementedError,
+def progKL (sizeArg fGiven : Bool) : List Instr :=
+  rebuild ++ sizeUnless sizeArg ++
+  [lookup, .setAlpha, .setR, .buildLam, .setF, .failUnless .notY12both .NotImplementedError,
    .supports .matricesNum .KeyError] ++
   (if fGiven then [] else [.needF .ValueError]) ++
   [.kern .fkLnum, .when .cte (.kern .fkG0), .out .k0]
@@ -571,9 +569,9 @@ def progKL (fGiven : Bool) : List Instr :=
 def progKG0 (sizeArg : Bool) : List Instr :=
   rebuild ++ sizeUnless sizeArg ++ [lookup, .setAlpha, .setR, .kernY .fkG0 .fkG0y1y2, .out .kG0]
 
-def progKG (fGiven : Bool) : List Instr :=
-  rebuild ++
-  [.setSize, .supports .matricesNum .KeyError, .setAlpha, .setR, .failUnless .y12none .NotImplementedError] ++
+def progKG (sizeArg fGiven : Bool) : List Instr :=
+  rebuild ++ sizeUnless sizeArg ++
+  [.supports .matricesNum .KeyError, .setAlpha, .setR, .failUnless .y12none .NotImplementedError] ++
   (if fGiven then [] else [.needLamF]) ++
   [.kern .fkGnum, .out .kG0]
 
@@ -587,7 +585,11 @@ def progKA (sizeArg : Bool) : List Instr :=
 
 def progFext (sizeArg : Bool) : List Instr :=
   rebuild ++ [.modelCheck .ValueError .ValueError, lookup] ++ sizeUnless sizeArg ++
-  [.setSize, .when .forces (.kern .fg), .when .forces (.supports .dofs3 .NameError), .kern .fextAcc]
+  [.setSize, .when .forces (.kern .fg), .kern .fextAcc]
+
+def progFint (sizeArg fGiven : Bool) : List Instr :=
+  [.modelCheck .ValueError .ValueError, .supports .matricesNum .ValueError] ++ sizeUnless sizeArg ++
+  [.setAlpha, .setR] ++ (if fGiven then [] else [.needF .ValueError]) ++ [.kern .fint]
 
 def progStrain : List Instr :=
   [.touch .Xs, .touch .Ys, lookup, .supports .fstrain .AttributeError, .kern .fstrain,
@@ -596,10 +598,10 @@ def progStrain : List Instr :=
 def prog : Op → List Instr
   | .getSize => [.setSize, .kern .sizeVal]
   | .k0 sa => progK0 sa
-  | .kL fg => progKL fg
+  | .kL fg => progKL false fg
   | .kG0 sa => progKG0 sa
-  | .kG fg => progKG fg
-  | .kT fg => progKL fg ++ [.push] ++ progKG fg ++ [.push, .touch .kT]
+  | .kG fg => progKG false fg
+  | .kT fg => progKL false fg ++ [.push] ++ progKG false fg ++ [.push, .touch .kT]
   | .kM sa => progKM sa
   | .kA sa => progKA sa
   | .cA => [lookup, .supports .fcA .AttributeError, .kern .sizeVal, .kern .fcA, .out .cA]
@@ -613,9 +615,7 @@ def prog : Op → List Instr
        | .a4 => [.readReg .k0]) ++
       [.readReg .kM, .kern .eigFreq, .touch .eigvals, .touch .eigvecs]
   | .fext sa => progFext sa
-  | .fint fg =>
-      [.modelCheck .ValueError .ValueError, .supports .matricesNum .ValueError, .setSize, .setAlpha, .setR] ++
-      (if fg then [] else [.needF .ValueError]) ++ [.kern .fint]
+  | .fint fg => progFint false fg
   | .static => rebuild ++ [lookup] ++ progFext false ++ [.push] ++ progK0 false ++
       [.push, .kern .solve, .touch .increments]
   | .uvw => [.touch .Xs, .touch .Ys, lookup, .kern .fuvw, .touch .u, .touch .v, .touch .w, .touch .phix, .touch .phiy]
@@ -659,5 +659,316 @@ def runOps (d : Def) : State → List Op → State
 def stepLog (d : Def) (s : State) (op : Op) : Log := footprint d (prog op) s.h
 
 end Panel
+
+/-! ## PanelAssembly (two panels, one connection), built on the Panel machine
+
+Modelled: `get_size, calc_k0(conn=…), calc_kG0(), calc_kG0(c=c), calc_kM, calc_kT(c=c), calc_fint, calc_fext,
+get_k0_conn(conn=…), uvw, strain, stress` as the per-panel programs they run (explicit `size=`) in panel order,
+the cache `self.k0_conn` (returned whenever it is not `None`, whatever `conn` argument is passed) and
+`calc_kt_kr` (per panel: `_rebuild`, laminate without offset if there is none).  Connection kernels read only
+geometry / flags of the panels and are folded into the connection token. -/
+namespace Asm
+open Panel
+
+structure ADef where
+  d1 : Def
+  d2 : Def
+  connGiven : Bool          -- `PanelAssembly(panels, conn=...)`
+deriving DecidableEq, Repr
+
+/-- which connection list a cached `k0_conn` was built from -/
+inductive ConnId where
+  | own | other
+deriving DecidableEq, Repr
+
+structure ConnTok where
+  id : ConnId
+  t1 : List Tok             -- what `calc_kt_kr` consumed from panel 1
+  t2 : List Tok
+deriving DecidableEq, Repr
+
+structure AState where
+  p1 : State
+  p2 : State
+  cache : Option ConnTok    -- `self.k0_conn`
+deriving DecidableEq, Repr
+
+def afresh (a : ADef) : AState := ⟨fresh a.d1, fresh a.d2, none⟩
+
+inductive AOp where
+  | size | k0 (other : Bool) | kG0 | kG | kM | kT | fint | fext | conn (other : Bool) | uvw | strain | stress
+deriving DecidableEq, Repr
+
+inductive AOutcome where
+  | ok (r1 r2 : List Tok) (conn : Option ConnTok)
+  | err (e : Err)
+deriving DecidableEq, Repr
+
+def AOutcome.isOk : AOutcome → Bool
+  | .ok .. => true
+  | .err _ => false
+
+/-- run a Panel program on one panel of the assembly -/
+def pstep (d : Def) (s : State) (p : List Instr) : State × Option Err × List Tok :=
+  let r := run d p ⟨s.h, Work.start, s.g⟩
+  (⟨r.1.h, r.1.g⟩, r.2, result r.1.x)
+
+/-- the same program on panel 1, then on panel 2 (the loop `for p in self.panels`) -/
+def both (a : ADef) (s : AState) (p : List Instr) : AState × Option Err × List Tok × List Tok :=
+  let r1 := pstep a.d1 s.p1 p
+  match r1.2.1 with
+  | some e => ({ s with p1 := r1.1 }, some e, [], [])
+  | none =>
+    let r2 := pstep a.d2 s.p2 p
+    ({ s with p1 := r1.1, p2 := r2.1 }, r2.2.1, r1.2.2, r2.2.2)
+
+/-- `get_k0_conn(conn)` -/
+def getConn (a : ADef) (s : AState) (other : Bool) : AState × Except Err ConnTok :=
+  if !other && !a.connGiven then (s, .error .RuntimeError)
+  else match s.cache with
+    | some t => (s, .ok t)
+    | none =>
+      let r := both a s (prog .ktkr)
+      match r.2.1 with
+      | some e => (r.1, .error e)
+      | none =>
+        let t : ConnTok := ⟨if other then .other else .own, r.2.2.1, r.2.2.2⟩
+        ({ r.1 with cache := some t }, .ok t)
+
+def uvwProg : List Instr := [lookup, .kern .fuvw]
+def strainProg : List Instr :=
+  [lookup, .supports .fstrain .AttributeError, .kern .fstrain, .failUnless .alphaZero .NotImplementedError]
+def stressProg : List Instr := strainProg ++ [.needF .ValueError, .kern .stressMul]
+def kTProg : List Instr := progKL true false ++ [.push] ++ progKG true false ++ [.push]
+
+def panelProg : AOp → List Instr
+  | .k0 _ => progK0 true
+  | .kG0 => progKG0 true
+  | .kG => progKG true false
+  | .kM => progKM true
+  | .kT => kTProg
+  | .fint => progFint true false
+  | .fext => progFext true
+  | .uvw => uvwProg
+  | .strain => strainProg
+  | .stress => stressProg
+  | _ => []
+
+def astep (a : ADef) (s : AState) (op : AOp) : AState × AOutcome :=
+  match op with
+  | .size => (s, .ok [] [] none)
+  | .conn other =>
+    let r := getConn a s other
+    (r.1, match r.2 with
+      | .ok t => .ok [] [] (some t)
+      | .error e => .err e)
+  | op =>
+    let r := both a s (panelProg op)
+    match r.2.1 with
+    | some e => (r.1, .err e)
+    | none =>
+      match op with
+      | .k0 other =>
+        let c := getConn a r.1 other
+        (c.1, match c.2 with
+          | .ok t => .ok r.2.2.1 r.2.2.2 (some t)
+          | .error e => .err e)
+      | .kT | .fint =>                       -- `kT += k0_conn`, `fint += k0_conn*c`
+        let c := getConn a r.1 false
+        (c.1, match c.2 with
+          | .ok t => .ok r.2.2.1 r.2.2.2 (some t)
+          | .error e => .err e)
+      | _ => (r.1, .ok r.2.2.1 r.2.2.2 none)
+
+def arunOps (a : ADef) : AState → List AOp → AState
+  | s, [] => s
+  | s, op :: ops => arunOps a (astep a s op).1 ops
+
+/-- per-panel footprints of one assembly call (for the correspondence) -/
+def alog (a : ADef) (s : AState) (op : AOp) : Log × Log :=
+  let fp (p : List Instr) : Log × Log :=
+    let r1 := pstep a.d1 s.p1 p
+    (footprint a.d1 p s.p1.h, match r1.2.1 with
+      | some _ => ⟨[], []⟩
+      | none => footprint a.d2 p s.p2.h)
+  let connLog (s : AState) (other : Bool) : Log × Log :=
+    if (!other && !a.connGiven) || s.cache.isSome then (⟨[], []⟩, ⟨[], []⟩)
+    else
+      let r1 := pstep a.d1 s.p1 (prog .ktkr)
+      (footprint a.d1 (prog .ktkr) s.p1.h, match r1.2.1 with
+        | some _ => ⟨[], []⟩
+        | none => footprint a.d2 (prog .ktkr) s.p2.h)
+  let cat (x y : Log × Log) : Log × Log := (⟨x.1.rd ++ y.1.rd, x.1.wr ++ y.1.wr⟩, ⟨x.2.rd ++ y.2.rd, x.2.wr ++ y.2.wr⟩)
+  match op with
+  | .size => (⟨[], []⟩, ⟨[], []⟩)
+  | .conn other => connLog s other
+  | .k0 other =>
+    let r := both a s (panelProg op)
+    (match r.2.1 with
+     | some _ => fp (panelProg op)
+     | none => cat (fp (panelProg op)) (connLog r.1 other))
+  | .kT | .fint =>
+    let r := both a s (panelProg op)
+    (match r.2.1 with
+     | some _ => fp (panelProg op)
+     | none => cat (fp (panelProg op)) (connLog r.1 false))
+  | op => fp (panelProg op)
+
+end Asm
+
+/-! ## StiffPanelBay (skin panels, optional stiffeners) — coarse
+
+Modelled: the two bay-level lazily derived attributes `model` (copied from the first skin panel by `_rebuild`) and
+`size` (created by `get_size`), and which skin panels had `r = None` normalised to `0.` (the stiffeners' `_rebuild`
+asserts `panel1.r == panel2.r`; `calc_kA` normalises `panels[0]` only), for `calc_k0, calc_kG0, calc_kM, calc_kA, calc_cA, calc_fext, uvw_skin, get_size`.
+The panels' own life cycle is the Panel machine (the bay always passes an explicit `size=`). -/
+namespace Bay
+
+structure BDef where
+  modelGiven : Bool     -- `bay.model` set by the caller
+  stiffFlat : Bool      -- flat bay (`r is None`) with a stiffener between the first two skin panels
+deriving DecidableEq, Repr
+
+structure BState where
+  model : Bool          -- `bay.model is not None`
+  size : Bool           -- attribute `size` exists
+  r0 : Bool             -- `panels[0].r` was normalised from `None` to `0.`
+  rAll : Bool           -- every skin panel's `r` was normalised
+deriving DecidableEq, Repr
+
+def bfresh (d : BDef) : BState := ⟨d.modelGiven, false, false, false⟩
+
+inductive BOp where
+  | size | k0 | kG0 | kM | kA | cA | fext | uvw
+deriving DecidableEq, Repr
+
+/-- a bay result depends on nothing hidden at bay level: the token is the call itself -/
+inductive BOutcome where
+  | ok (op : BOp)
+  | err (e : Err)
+deriving DecidableEq, Repr
+
+def BOutcome.isOk : BOutcome → Bool
+  | .ok _ => true
+  | .err _ => false
+
+/-- `_rebuild`: the stiffeners assert `panel1.r == panel2.r` -/
+def rebuildOk (d : BDef) (s : BState) : Bool := !(d.stiffFlat && s.r0 && !s.rAll)
+
+def bstep (d : BDef) (s : BState) : BOp → BState × BOutcome
+  | .size => if s.model then ({ s with size := true }, .ok .size) else (s, .err .KeyError)
+  | .k0 => if rebuildOk d s then (⟨true, true, true, true⟩, .ok .k0) else (s, .err .AssertionError)
+  | .kG0 => if rebuildOk d s then (⟨true, true, true, true⟩, .ok .kG0) else (s, .err .AssertionError)
+  | .kM => if rebuildOk d s then (⟨true, true, true, true⟩, .ok .kM) else (s, .err .AssertionError)
+  | .kA =>
+    if rebuildOk d s then
+      (if s.size then ({ s with model := true, r0 := true }, .ok .kA)        -- `p = self.panels[0]; p.r = self.r; p.calc_kA()`
+       else ({ s with model := true }, .err .AttributeError))                -- `p.size = self.size`
+    else (s, .err .AssertionError)
+  | .cA =>
+    if rebuildOk d s then ({ s with model := true, size := true }, .err .TypeError)   -- unexpected keyword, always
+    else (s, .err .AssertionError)
+  | .fext => if s.model then (s, .ok .fext) else (s, .err .KeyError)       -- `panelmDB.db[self.model]`
+  | .uvw => if s.model then ({ s with size := true }, .ok .uvw) else (s, .err .KeyError)  -- `self.get_size()`
+
+def brunOps (d : BDef) : BState → List BOp → BState
+  | s, [] => s
+  | s, op :: ops => brunOps d (bstep d s op).1 ops
+
+def ballOps : List BOp := [.size, .k0, .kG0, .kM, .kA, .cA, .fext, .uvw]
+
+end Bay
+
+/-! ## ConeCyl — coarse
+
+Modelled: the axial-load life cycle (`Fc`, `Nxxtop`, `_load_rebuilt`), the linear-matrix cache
+(`k0`, `k0uu`, `F`, `lam`) and the geometry derived by `_rebuild` (`L`, `alpharad`, …), for
+`calc_k0, lb, static, calc_fext, calc_fint, calc_kT, uvw, strain, stress, get_size`.
+`lb` writes `self.Fc = 1.` when neither `Fc` nor `Nxxtop` is set — but `Nxxtop` is created (zeros) by the first
+`_rebuild`, and once `_load_rebuilt` is set `_rebuild` never looks at `Fc` again. -/
+namespace Cone
+
+structure CDef where
+  fcGiven : Bool        -- the caller set an axial load `Fc`
+  rebuilt : Bool        -- the definition itself ran `_rebuild` (`add_SPL` does)
+deriving DecidableEq, Repr
+
+/-- `self.Fc` -/
+inductive Fc where
+  | none | user | one
+deriving DecidableEq, Repr
+
+/-- `self.Nxxtop[0]` as provenance: attribute still `None`, zeros, from the user's `Fc`, from `Fc = 1.` -/
+inductive Nxx where
+  | unset | zero | user | one
+deriving DecidableEq, Repr
+
+structure CState where
+  fc : Fc
+  nxx : Nxx             -- `Nxxtop` (`unset` ⇔ `_load_rebuilt = False`)
+  geo : Bool            -- `_rebuild` ran: `L`, `H`, `r1`, `alpharad`, `excluded_dofs` derived
+  lin : Bool            -- linear matrices exist: `k0`, `k0uu`, `F`, `lam`
+deriving DecidableEq, Repr
+
+def rebuildC (s : CState) : CState :=
+  { s with geo := true, nxx := match s.nxx with
+      | .unset => (match s.fc with | .none => .zero | .user => .user | .one => .one)
+      | n => n }
+
+def cfresh (d : CDef) : CState :=
+  let s : CState := ⟨if d.fcGiven then .user else .none, .unset, false, false⟩
+  if d.rebuilt then rebuildC s else s
+
+inductive COp where
+  | size | k0 | lb | static | fext | fint | kT | uvw | strain | stress
+deriving DecidableEq, Repr
+
+inductive CErr where
+  | TypeError | SEGV
+deriving DecidableEq, Repr
+
+/-- result token: the call and the axial-load provenance it consumed (if any) -/
+inductive COutcome where
+  | ok (op : COp) (load : Option Nxx)
+  | err (e : CErr)
+deriving DecidableEq, Repr
+
+def COutcome.isOk : COutcome → Bool
+  | .ok .. => true
+  | .err _ => false
+
+/-- `_calc_linear_matrices` -/
+def linear (s : CState) : CState := { rebuildC s with lin := true }
+
+def cstep (s : CState) : COp → CState × COutcome
+  | .size => (s, .ok .size none)
+  | .k0 => let s' := if s.lin then s else linear s; (s', .ok .k0 none)
+  | .lb =>
+    -- `if self.Fc is None and self.Nxxtop is None: self.Fc = 1.`
+    let s1 := if s.fc = .none ∧ s.nxx = .unset then { s with fc := .one } else s
+    let s2 := linear s1
+    (s2, .ok .lb (some s2.nxx))
+  | .fext =>
+    let s1 := rebuildC s
+    let s2 := if s1.lin then s1 else linear s1
+    (s2, .ok .fext (some s2.nxx))
+  | .static =>
+    let s1 := rebuildC s
+    let s2 := if s1.lin then s1 else linear s1
+    (s2, .ok .static (some s2.nxx))
+  | .kT => let s' := if s.lin then s else linear s; (s', .ok .kT none)
+  | .fint =>      -- `self.L is None`: TypeError at the kernel boundary; `self.F is None` goes INTO the kernel
+    if s.geo then (if s.lin then (s, .ok .fint none) else (s, .err .SEGV)) else (s, .err .TypeError)
+  | .uvw => if s.geo then (s, .ok .uvw none) else (s, .err .TypeError)      -- `linspace(0, self.L)`
+  | .strain => if s.geo then (s, .ok .strain none) else (s, .err .TypeError)
+  | .stress => if s.geo then (if s.lin then (s, .ok .stress none) else (s, .err .SEGV)) else (s, .err .TypeError)
+
+def crunOps : CState → List COp → CState
+  | s, [] => s
+  | s, op :: ops => crunOps (cstep s op).1 ops
+
+def callOps : List COp := [.size, .k0, .lb, .static, .fext, .fint, .kT, .uvw, .strain, .stress]
+
+end Cone
 
 end Compmech.Lifecycle
